@@ -2,3 +2,4 @@ import LouModel.Basic
 import LouModel.PosMap
 import LouModel.Driver
 import LouModel.Proto
+import LouModel.Resolve
